@@ -13,7 +13,8 @@ RULE = ("(a) exhaustive: chains of length 1..3 (quick) / 1..4 (thorough), with a
         "in five contexts; (a4) chains whose taken branch calls a function that stacks 70..300 more conditionals (or recurses 70..300 deep) "
         "before the chain's else is reached; (b) random structured programs. "
         "Output and end status are compared with the Lean model and with the structured big-step semantics of the tree. "
-        "Non-trivial: the chain has an else or more than one condition.")
+        "Non-trivial: the chain has an else or more than one condition."
+        ' Close-values family: 11 pairs of neighbouring doubles (2^53 +- 1/2, 10^18 + 128, 0.1 + 0.2 vs 0.3, 1/3*3, 1 + ulp) in ==/</else and !=/else chains and list equality.')
 ASSUMPTIONS = ["generated programs terminate; loops are counter-guarded"]
 default_compare = lambda m, i: C.compare_run(m, i)
 
@@ -161,6 +162,27 @@ def cases(rng, tier, stats):
                     out.append(prog_case("deep-flag-stack", prog, info={"depth": depth, "shape": shape, "template": k}))
                     n4 += 1
     stats["deep_flag_stack_cases"] = n4
+    # (a5) conditions that compare numbers which are close but different (neighbouring doubles at 2^53, 10^18, 0.1 + 0.2 against
+    # 0.3, a value against itself plus one unit in the last place): `==` / `!=` are exact, so which branch runs is decided
+    # by the exact values, in chains ordered ==, <, else and !=, else
+    close = [("2^53", G.num(9007199254740992), G.num(9007199254740991)), ("2^53-2", G.num(9007199254740992), G.num(9007199254740990)),
+             ("2^53+2", G.num(9007199254740992), G.num(9007199254740994)), ("10^18", G.num(10 ** 18), G.num(10 ** 18 + 128)),
+             ("0.3", G.num("0.3"), G.bin_("+", G.num("0.1"), G.num("0.2"))), ("third", G.num(1), G.bin_("*", G.bin_("/", G.num(1), G.num(3)), G.num(3))),
+             ("tenth-sum", G.num(1), G.bin_("+", G.bin_("+", G.bin_("+", G.num("0.1"), G.num("0.2")), G.num("0.3")), G.num("0.4"))),
+             ("ulp", G.num("1.0000000000000002"), G.num(1)), ("tiny", G.num("0.000000000000000000001"), G.num("0.0000000000000000000010000000000000001")),
+             ("same", G.num(9007199254740992), G.bin_("+", G.num(9007199254740991), G.num(1))), ("1e15+half", G.num("1000000000000000.5"), G.num("1000000000000000.4"))]
+    n5 = 0
+    for tag, lim, val in close:
+        for swap in (False, True):
+            l, r_ = (val, lim) if swap else (lim, val)
+            for k in (0, 2, 3, 8):
+                ch1 = ("if", [(G.bin_("==", l, r_), [("print", G.s("সমান"))]), (G.bin_("<", l, r_), [("print", G.s("ছোট"))])], [("print", G.s("বড়"))])
+                ch2 = ("if", [(G.bin_("!=", l, r_), [("print", G.s("আলাদা"))])], [("print", G.s("একই"))])
+                ch3 = ("if", [(G.bin_("==", G.lst(l), G.lst(r_)), [("print", G.s("তালিকা সমান"))])], [("print", G.s("তালিকা আলাদা"))])
+                for ch in (ch1, ch2, ch3):
+                    out.append(prog_case("close-values", templates(ch, k) + [("print", G.bin_("==", l, r_)), ("print", G.s("শেষ"))], info={"pair": tag, "swap": swap, "template": k}))
+                    n5 += 1
+    stats["close_value_cases"] = n5
     # non-boolean condition
     for c in [G.num(1), G.s("x"), G.lst(), G.call("_টাইপ", G.num(1))]:
         out.append(prog_case("non-boolean-condition", [("print", G.s("a")), ("if", [(G.b(False), []), (c, [("print", G.s("b"))])], None), ("print", G.s("c"))]))
